@@ -87,7 +87,7 @@ def generate(tier, seed):
             elif r < 0.8:
                 steps.append("SE")
             else:
-                steps.append("AF:%s:%s" % (rnd.choice(["uf1", "keyMatch"]), rnd.choice(["eq", "prefix"])))
+                steps.append("AF:%s:%s" % (rnd.choice(["uf1", "keyMatch", "g"]), rnd.choice(["eq", "prefix"])))
             # management calls, persisted by an explicit save (the file adapter does not persist incrementally)
             if rnd.random() < 0.6:
                 rule = []
